@@ -736,6 +736,22 @@ func rulesC16(e *Engine, r *Report) {
 				"startQueue leaves when its input is closed and Pop() answers nil, but Pop() answers nil also for a file withheld by last-delay: during a graceful (one-shot) stop that file is never transmitted", 1)
 		}
 	}
+	// ---------------------------------------------------------------- R16.11
+	r.Rule("R16.11", "the stop is visible before it is announced: the goroutine that turns the external stop request into the broker's state sets the flags (stop, stopGraceful, under stopMux) BEFORE it sends on chStop - the send blocks until the scanner is between two scans, and every other stage, every timed send and every retry loop learns of the stop from the flags only")
+	{
+		n := 0
+		for _, cf := range WithClosures(start) {
+			snd := e.findInstrs(cf, "send(^p0.chStop, §)", false)
+			if len(snd) == 0 {
+				continue
+			}
+			n++
+			cls := labeler(I("store(^p0.stop = true)", "stopSet"), I("store(^p0.stopGraceful = §)", "kindSet"), I("call(sync.(*RWMutex).Unlock)(&^p0.stopMux)", "published"))
+			e.Guarded(r, "R16.11", e.ShortName(cf)+": send on chStop only after the flags are set and published", cf, only(snd[0]), cls,
+				func(l LabelSet) bool { return l.HasAll("stopSet", "kindSet", "published") }, "stop and stopGraceful stored, stopMux released")
+		}
+		r.Min("R16.11", "stop broadcasts in Start", n, 1)
+	}
 }
 
 func shortPred(p string) string {
